@@ -5,6 +5,15 @@ import multiprocessing
 import numpy as np
 
 PROPS_MODULE = "NessaiVerif.Props.C10"
+MANIFEST = dict(
+    text="Lean theorems over a model of batch_evaluate_function / array_split_chunksize / np.array_split for every "
+         "length, chunk size and pool size (concat∘split = id, chunk length ≤ chunksize, batchEval = map f, every point "
+         "handed to the user function exactly once in order, counter += n once); model tied to the code by an exhaustive-grid "
+         "correspondence against the real functions and Model.batch_evaluate_* (physical and unit-hypercube mode) with a "
+         "fake order-preserving pool (real fork pools in the thorough tier).",
+    note="Assumed: Pool.map preserves order; the user function is batch-consistent.",
+    technique="Lean 4 proof (induction over lists) + differential correspondence with the real functions",
+    ref="5/C10")
 
 
 class FakePool:
